@@ -525,12 +525,19 @@ class Connection:
 
         COM_STMT_EXECUTE asks the server to execute a prepared statement as identified by stmt-id.
         """
-        com_stmt_execute = packets.parse_com_stmt_execute(
-            capabilities=self.capabilities,
-            client_charset=self.client_charset,
-            data=data,
-            get_stmt=self.get_stmt,
-        )
+        try:
+            com_stmt_execute = packets.parse_com_stmt_execute(
+                capabilities=self.capabilities,
+                client_charset=self.client_charset,
+                data=data,
+                get_stmt=self.get_stmt,
+            )
+        except Exception:
+            # Long data belongs to one execution attempt, whether or not it is accepted
+            refused = self.prepared_stmts.get(int.from_bytes(data[:4], "little"))
+            if refused is not None and len(data) >= 4:
+                refused.param_buffers = None
+            raise
 
         com_stmt_execute.stmt.param_buffers = None
         # A new execution supersedes the statement's open cursor, whatever its outcome
